@@ -45,7 +45,9 @@ func buildEvidence(id, tier string, seed int64, p Property, files []*stats.File,
 			continue
 		}
 		cov.Evaluations += f.Evaluations
-		cov.Units[f.Test] += f.Evaluations
+		if f.Test != "driver" {
+			cov.Units[f.Test] += f.Evaluations
+		}
 		for k, v := range f.Labels {
 			cov.Labels[k] += v
 		}
